@@ -13,6 +13,13 @@ for d in seeded/*/; do
   props=$(jq -r '(.checks // []) | join(" ")' $d/meta.json 2>/dev/null); [ -z "$props" ] && props="$prop"; [ -n "${ALL:-}" ] && props="C01 C02 C03 C04 C05 C06 C07 C08 C09 C10 C11 C12 C13 C14 C15 C16 C17"
   for q in $props; do
     # "P:O" = the cases of profile P judged by the oracle of property O (cross-profile stage of ./check O)
+    if [[ "$q" == asan:* ]]; then
+      # the sanitizer engine of ./check ${q##*:} (real threads, AddressSanitizer)
+      out=$(DV_HOME=/var/tmp/dv-mut-home ./check_asan quick address ${q##*:} 2>&1); rc=$?
+      echo "$id check=$q exit=$rc | | $(echo "$out" | grep -aE "ERROR: AddressSanitizer|DV-ASAN" | head -1 | cut -c1-150)"
+      rm -f fuzz-asan/artifacts/crash-*
+      continue
+    fi
     if [[ "$q" == *:* ]]; then xo="--oracle ${q##*:} --cases 20000"; qp=${q%%:*}; else xo=""; qp=$q; fi
     out=$(DV_HOME=/var/tmp/dv-mut-home ./target/release/dv check $qp $xo --tier ${TIER:-quick} 2>&1); rc=$?
     summ=$(echo "$out" | grep -E "^C[0-9]+ (quick|thorough)" | sed -E 's/, [0-9]+ step-bound.*other oracles/ other/; s/, [0-9.]+s \(.*//')
